@@ -357,6 +357,11 @@ func (h *Hist) Step() {
 	case 20: // SetCollection on a new name
 		for _, n := range h.Names {
 			if _, ok := e.M.Live.Colls[n]; !ok {
+				if h.Cfg.RotCmp && r.P(50) {
+					// a collection re-created under a name may get another comparator than its predecessor
+					e.Cmps[n] = model.Cmp(fmt.Sprintf("rot:%d", r.Range(1, 250)))
+					e.Stats["comparator-changed-at-re-creation"]++
+				}
 				e.SetCollection(n, e.Cmps[n])
 				h.Feat["setcoll-new"] = true
 				break
